@@ -15,10 +15,14 @@ for rf in sorted(glob.glob("/tmp/mut/results-*.json")):
     for r in json.load(open(rf)):
         verdicts[r["mutant"]] = r
 for prop in sys.argv[1:]:
-    for diff in sorted(glob.glob("/tmp/mut/%s/m*.diff" % prop)):
+    for diff in sorted(glob.glob("/tmp/mut/%s/m?.diff" % prop)):
         k = os.path.basename(diff)[:-5]
         demo = diff[:-5] + "_demo.py"
-        meta_in = json.load(open(diff[:-5] + ".json")) if os.path.exists(diff[:-5] + ".json") else {}
+        orig_diff = diff
+        rebased = os.path.exists(diff[:-5] + ".rebased.diff")
+        if rebased:
+            diff = diff[:-5] + ".rebased.diff"
+        meta_in = json.load(open(orig_diff[:-5] + ".json")) if os.path.exists(orig_diff[:-5] + ".json") else {}
         env = dict(os.environ, PYTHONPATH=WT)
         sh("git -C %s checkout -- ." % WT)
         d0 = sh("/venv/bin/python %s" % demo, env=env, timeout=900).returncode
@@ -27,7 +31,7 @@ for prop in sys.argv[1:]:
         d1 = sh("/venv/bin/python %s" % demo, env=env, timeout=900).returncode
         sh("git -C %s checkout -- ." % WT)
         ok = (d0 == 0 and ap == 0 and "passed" in suite and "failed" not in suite and d1 != 0)
-        v = verdicts.get(diff, {})
+        v = verdicts.get(orig_diff, {})
         print(prop, k, "confirmed" if ok else "NOT-CONFIRMED", "demo_clean=%s apply=%s suite=%r demo_mutant=%s" % (d0, ap, suite, d1),
               "| check rc=%s" % v.get("rc"))
         if not ok:
@@ -37,7 +41,7 @@ for prop in sys.argv[1:]:
         shutil.copy(diff, dst + "/patch.diff")
         shutil.copy(demo, dst + "/demo.py")
         meta = {"property": prop, "summary": meta_in.get("summary"), "needs_to_manifest": meta_in.get("needs_to_manifest"),
-                "base_commit": head,
+                "base_commit": head, "rebased": rebased,
                 "confirmed": {"demo_on_clean_tree_exit": d0, "patch_applies": True, "suite_with_patch": suite, "demo_with_patch_exit": d1,
                               "how": "tools/seed_mutants.py in scratch worktree /tmp/wt/eval (git apply; pytest; demo; git checkout -- .)"},
                 "our_check": {"cmd": "./check %s --tier quick (VERIF_REPO=scratch worktree with the patch applied)" % prop,
